@@ -196,27 +196,32 @@ def norm(v):
     return (repr(d), c)
 
 
-def check_passthrough(k: int, mask: List[bool], fk: List[int]) -> bool:
+def check_passthrough(k: int, n: int, m0: bool, m1: bool, m2: bool, m3: bool, m4: bool,
+                      f0: int, f1: int, f2: int, f3: int, f4: int) -> bool:
     """
     pre: 0 <= k <= 9
-    pre: len(mask) <= B.N
-    pre: len(fk) == len(mask)
-    pre: h.in_shard(k + 10 * (len(mask) % 2))
+    pre: 0 <= n <= B.N
+    pre: h.in_shard(k + 10 * (n % 2) + 20 * (1 if m0 else 0))
     post: _
     """
+    # flow of n values: position i is a selected value (m_i) or the foreign
+    # value number f_i (read only where it is used)
     k = h.concrete(k, 0, 9)
+    n = h.concrete(n, 0, B.N)
+    ms = [m0, m1, m2, m3, m4]
+    fs = [f0, f1, f2, f3, f4]
     plan = []
     ns = 0
-    for i in range(len(mask)):
-        if mask[i]:
+    for i in range(n):
+        if ms[i]:
             if ns >= 2:
                 return True          # at most two selected values
             plan.append(("s", ns))
             ns += 1
         else:
             j = 0
-            for c in range(B.NF):
-                if fk[i] == c:
+            for c in range(1, B.NF):
+                if fs[i] == c:
                     j = c
             plan.append(("f", j))
     out, foreigns, log, files, unchanged = run_once(k, plan)
@@ -244,10 +249,10 @@ def check_passthrough(k: int, mask: List[bool], fk: List[int]) -> bool:
 
 
 CONDITIONS = [
-    dict(fn="check_passthrough", shards=(20, 20), budget=(90, 1500),
-         smoke=["check_passthrough(0, [True, False, True], [0, 0, 0])", "check_passthrough(1, [False, True, False], [0, 0, 1])",
-                "check_passthrough(2, [True, False], [0, 0])", "check_passthrough(3, [False, True, False], [0, 0, 3])",
-                "check_passthrough(4, [True, False, True], [0, 0, 0])", "check_passthrough(5, [False, True], [0, 0])",
-                "check_passthrough(6, [True, False], [0, 1])", "check_passthrough(7, [True, False, False], [0, 0, 2])",
-                "check_passthrough(8, [True, False, True], [0, 0, 0])", "check_passthrough(9, [False, True, False], [0, 0, 1])"]),
+    dict(fn="check_passthrough", shards=(40, 40), budget=(90, 1200),
+         smoke=["check_passthrough(0, 3, True, False, True, False, False, 0, 0, 0, 0, 0)", "check_passthrough(1, 3, False, True, False, False, False, 0, 0, 1, 0, 0)",
+                "check_passthrough(2, 2, True, False, False, False, False, 0, 0, 0, 0, 0)", "check_passthrough(3, 3, False, True, False, False, False, 0, 0, 3, 0, 0)",
+                "check_passthrough(4, 3, True, False, True, False, False, 0, 0, 0, 0, 0)", "check_passthrough(5, 2, False, True, False, False, False, 0, 0, 0, 0, 0)",
+                "check_passthrough(6, 2, True, False, False, False, False, 0, 1, 0, 0, 0)", "check_passthrough(7, 3, True, False, False, False, False, 0, 0, 2, 0, 0)",
+                "check_passthrough(8, 3, True, False, True, False, False, 0, 0, 0, 0, 0)", "check_passthrough(9, 3, False, True, False, False, False, 0, 0, 1, 0, 0)"]),
 ]
